@@ -7,14 +7,87 @@ import Std.Data.HashMap
 import Pds.Model.Script
 import Pds.Model.Hll
 import Pds.Model.HllCount
+import Pds.Model.Bloom
+import Pds.Model.Cms
+import Pds.Model.Cuckoo
+import Pds.Model.Quotient
+import Pds.Model.Reservoir
+import Pds.Model.Lossy
+import Pds.Model.CmsHeap
+import Pds.Model.TDigest
+import Pds.Model.Serde
+import Pds.Model.Sizing
 
 namespace Pds.Driver
 open Pds Pds.Script
 
+/-- quotient filter of any size, packed existentially -/
+structure QfInst where
+  q : Nat
+  r : Nat
+  N : Nat
+  st : Quotient.St N
+
+structure TdInst where
+  scale : Nat
+  delta : Float
+  sf : TDigest.ScaleFn Float
+  st : TDigest.St Float
+
 inductive Inst where
   | hll (s : Hll.St) (bh : HashCfg)
+  | bloom (s : Bloom.St) (bh : HashCfg)
+  | cms (s : Cms.St) (bh : HashCfg)
+  | cuckoo (s : Cuckoo.St Rng) (bh : HashCfg)
+  | qf (s : QfInst) (bh : HashCfg)
+  | set (s : List Nat)
+  | res (s : Reservoir.St Rng)
+  | lossy (s : Lossy.St) (eps : Float)
+  | heap (s : CmsHeap.St)
+  | td (s : TdInst)
   | poisoned
   deriving Inhabited
+
+def cuckooRng : Cuckoo.RngI Rng := { bool := Rng.bool, below := Rng.below }
+
+/-- `draw_gap(seen)`: `⌊ln u / ln(1 - k/(seen+1))⌋` with `u = 1 - gen_range(0.0..1.0)` -/
+def resGap (k seen : Nat) (r : Rng) : Nat × Rng :=
+  let (v, r) := r.unit
+  let u := 1 - v
+  let p := Float.ofNat k / Float.ofNat (seen + 1)
+  ((u.log / (1 - p).log).floor.toUInt64.toNat, r)
+
+def resRng : Reservoir.RngI Rng := { below := Rng.below, gap := resGap }
+
+def piF : Float := Float.ofBits 0x400921FB54442D18
+
+def clampF (x lo hi : Float) : Float :=  -- x.min(hi).max(lo)
+  let x := if hi < x then hi else x
+  if x < lo then lo else x
+
+def isInf (x : Float) : Bool := x.isInf
+
+def scaleFn (scale : Nat) (delta : Float) : TDigest.ScaleFn Float :=
+  match scale with
+  | 0 => TDigest.k0 delta
+  | 1 => { f := fun q _ => let q := clampF q 0 1; delta / (2 * piF) * (2 * q - 1).asin,
+           fInv := fun k _ => let range := 0.25 * delta; let k := clampF k (-range) range
+                              ((k * 2 * piF / delta).sin + 1) / 2 }
+  | 2 =>
+    let x := fun (n : Nat) => delta / (4 * (Float.ofNat n / delta).log + 24)
+    { f := fun q n => let q := clampF q 0 1; x n * (q / (1 - q)).log,
+      fInv := fun k n => if isInf k then (if k > 0 then 1 else 0) else let z := (k / x n).exp; z / (z + 1) }
+  | _ =>
+    let x := fun (n : Nat) => delta / (4 * (Float.ofNat n / delta).log + 21)
+    { f := fun q n => let q := clampF q 0 1
+                      let y := if q ≤ 0.5 then (2 * q).log else -((2 * (1 - q)).log)
+                      x n * y,
+      fInv := fun k n => if isInf k then (if k > 0 then 1 else 0) else
+                         let xx := x n
+                         if k ≤ 0 then (k / xx).exp / 2 else 1 - (-k / xx).exp / 2 }
+
+def posInf : Float := 1.0 / 0.0
+def negInf : Float := -1.0 / 0.0
 
 structure DState where
   insts : Std.HashMap Nat Inst := {}
@@ -61,11 +134,118 @@ def isCtor (op : String) : Bool :=
   op.endsWith ".new" || op.endsWith ".neww" || op.endsWith ".newe" || op.endsWith ".with" ||
   op.endsWith ".props" || op.endsWith ".deser"
 
+def splitNats (s : String) : Option (List Nat) :=
+  if s.isEmpty then some [] else (s.splitOn ",").mapM String.toNat?
+
+/-- token of a serialised document (see harness/src/serde_doc.rs) -/
+def parseField (tok : String) : Option (Serde.Field HashCfg) :=
+  match tok.splitOn ":" with
+  | ["R", v] => match splitNats v with
+    | some l => some (.registers (if l.all (· < 256) then some l else none))
+    | none => none
+  | ["B", v] => v.toNat?.map fun n => .b (if n < 2^64 then some n else none)
+  | ["H", v] => match splitNats v with
+    | some [m, a, sh, seed] =>
+      some (.buildhasher (if m < 2^64 ∧ a < 2^64 ∧ sh < 2^32 ∧ seed < 2^64 then
+        some { mul := UInt64.ofNat m, add := UInt64.ofNat a, sh := sh, seed := UInt64.ofNat seed } else none))
+    | _ => none
+  | ["Bs", _] => some (.b none)
+  | ["Rs", _] => some (.registers none)
+  | ["Hn"] => some (.buildhasher none)
+  | [k, _] => if k.startsWith "X" then some .unknown else none
+  | _ => none
+
+def fieldTok (f : Serde.Field HashCfg) : String :=
+  match f with
+  | .registers (some l) => "R:" ++ ",".intercalate (l.map toString)
+  | .b (some n) => s!"B:{n}"
+  | .buildhasher (some h) => s!"H:{h.mul.toNat},{h.add.toNat},{h.sh},{h.seed.toNat}"
+  | _ => "?"
+
 /-- constructors: `none` inside = the real constructor panics -/
 def ctor (s : DState) (op : String) (args : List Nat) (_raw : List String) : Option (Option Inst × String) :=
   match op, args with
   | "hll.new", [b] => some ((Hll.new b).map (.hll · s.bh), "ok")
   | "hll.with", b :: regs => some ((Hll.withRegisters b regs.toArray).map (.hll · s.bh), "ok")
+  | "hll.deser", _ =>
+    match _raw.mapM parseField with
+    | none => none
+    | some doc => match Serde.deserialize doc with
+      | some (h, bh) => some (some (.hll h bh), "ok")
+      | none => some (some .poisoned, "err")   -- an `Err` leaves no usable instance behind
+  | "bloom.new", [m, k] => some ((Bloom.new m k).map (.bloom · s.bh), "ok")
+  | "bloom.props", [n, _] =>
+    match _raw with
+    | [_, p] => match parseFloat p with
+      | some p => match Sizing.bloomParams n p with
+        | some (k, m) => match Bloom.new m k with
+          | some f => some (some (.bloom f s.bh), s!"ok {k} {m}")
+          | none => some (none, "")
+        | none => some (none, "")
+      | none => none
+    | _ => none
+  | "cms.new", [_, w, d] =>
+    match _raw with
+    | ct :: _ =>
+      let cmax? : Option Nat := match ct with
+        | "u8" => some (2^8 - 1) | "u16" => some (2^16 - 1) | "u32" => some (2^32 - 1)
+        | "u64" => some (2^64 - 1) | "usize" => some (2^64 - 1) | _ => none
+      match cmax? with
+      | some cmax => some ((Cms.new w d cmax).map (.cms · s.bh), "ok")
+      | none => none
+    | _ => none
+  | "cms.props", _ =>
+    match _raw.mapM parseFloat with
+    | some [eps, delta] => match Sizing.cmsParams eps delta with
+      | some (w, d) => match Cms.new w d (2^64 - 1) with
+        | some c => some (some (.cms c s.bh), s!"ok {w} {d}")
+        | none => some (none, "")
+      | none => some (none, "")
+    | _ => none
+  | "cuckoo.new", seed :: bs :: nb :: lf :: forced =>
+    let rng : Rng := { forced := forced.map UInt64.ofNat, state := UInt64.ofNat seed }
+    some ((Cuckoo.new rng bs nb lf).map (.cuckoo · s.bh), "ok")
+  | "cuckoo.props", [which, _, n, seed] =>
+    match _raw with
+    | [_, p, _, _] => match parseFloat p with
+      | some p =>
+        let rng : Rng := { state := UInt64.ofNat seed }
+        let pr := if which = 4 then Sizing.cuckooParams 4 0.95 p n else Sizing.cuckooParams 8 0.98 p n
+        match pr with
+        | some (bs, nb, lf) => match Cuckoo.new rng bs nb lf with
+          | some f => some (some (.cuckoo f s.bh), s!"ok {bs} {nb} {lf}")
+          | none => some (none, "")
+        | none => some (none, "")
+      | none => none
+    | _ => none
+  | "qf.new", [q, r] =>
+    if Quotient.paramsOk q r then
+      if q ≤ 30 then some (some (.qf ⟨q, r, 2 ^ q, Quotient.empty (2 ^ q)⟩ s.bh), "ok") else none
+    else some (none, "")
+  | "set.new", [] => some (some (.set []), "ok")
+  | "res.new", k :: seed :: forced =>
+    let rng : Rng := { forced := forced.map UInt64.ofNat, state := UInt64.ofNat seed }
+    some ((Reservoir.new k rng).map .res, "ok")
+  | "lossy.neww", [w] => some ((Lossy.new w).map (.lossy · (1 / Float.ofNat w)), "ok")
+  | "lossy.newe", _ =>
+    match _raw.mapM parseFloat with
+    | some [eps] => match Sizing.lossyWidth eps with
+      | some w => some ((Lossy.new w).map (.lossy · eps), "ok")
+      | none => some (none, "")
+    | _ => none
+  | "heap.new", [k, w, d] =>
+    match Cms.new w d (2^64 - 1) with
+    | some c => some ((CmsHeap.new k c).map .heap, "ok")
+    | none => some (none, "")
+  | "td.new", [scale, _, bl] =>
+    match _raw with
+    | [_, d, _] => match parseFloat d with
+      | some delta =>
+        if delta > 1 ∧ delta.isFinite ∧ scale ≤ 3 then
+          some (some (.td ⟨scale, delta, scaleFn scale delta, TDigest.new bl⟩), "ok")
+        else some (none, "")
+      | none => none
+    | _ => none
   | _, _ => none
 
 def opHll (s : DState) (h : Hll.St) (bh : HashCfg) (op : String) (a : List Nat) : Out :=
@@ -88,12 +268,215 @@ def opHll (s : DState) (h : Hll.St) (bh : HashCfg) (op : String) (a : List Nat) 
     | some n => .ans (toString n)
     | none => .panic
   | "hll.relerr", [] => .ans (fb (HllCount.relativeError h))
+  | "hll.ser", [] => .ans (" ".intercalate ((Serde.serialize h bh).map fieldTok))
   | "hll.regs", [] => .ans (s!"{h.b} " ++ regsRepr h.regs)
   | "hll.rebuild", [j] => match Hll.withRegisters h.b h.regs with
     | some h' => .mk j (.hll h' bh)
     | none => .mk j .poisoned "panic"
   | "hll.clone", [j] => .mk j (.hll h bh)
   | _, _ => .bad
+
+def floats (raw : List String) : Option (List Float) := raw.mapM parseFloat
+
+def opBloom (s : DState) (f : Bloom.St) (bh : HashCfg) (op : String) (a : List Nat) : Out :=
+  match op, a with
+  | "bloom.insert", [x] => match Bloom.insert bh.hash f x with
+    | some (f', r) => .upd (.bloom f' bh) (b2s r)
+    | none => .panic
+  | "bloom.query", [x] => match Bloom.query bh.hash f x with
+    | some r => .ans (b2s r)
+    | none => .panic
+  | "bloom.union", [j] => match s.insts[j]? with
+    | some (.bloom o obh) => match Bloom.union f o with
+      | some f' => if obh == bh then .upd (.bloom f' bh) else .panic
+      | none => .panic
+    | _ => .bad
+  | "bloom.clear", [] => .upd (.bloom (Bloom.clear f) bh)
+  | "bloom.len", [] => .ans (toString (Bloom.len f))
+  | "bloom.empty", [] => .ans (b2s (Bloom.isEmpty f))
+  | "bloom.getters", [] => .ans s!"{f.m} {f.k}"
+  | "bloom.clone", [j] => .mk j (.bloom f bh)
+  | _, _ => .bad
+
+def opSet (s : DState) (l : List Nat) (op : String) (a : List Nat) : Out :=
+  match op, a with
+  | "set.insert", [x] => if l.contains x then .ans "false" else .upd (.set (x :: l)) "true"
+  | "set.query", [x] => .ans (b2s (l.contains x))
+  | "set.union", [j] => match s.insts[j]? with
+    | some (.set o) => .upd (.set (o.foldl (fun acc x => if acc.contains x then acc else x :: acc) l))
+    | _ => .bad
+  | "set.clear", [] => .upd (.set [])
+  | "set.len", [] => .ans (toString l.length)
+  | "set.empty", [] => .ans (b2s l.isEmpty)
+  | "set.clone", [j] => .mk j (.set l)
+  | _, _ => .bad
+
+def opCms (s : DState) (c : Cms.St) (bh : HashCfg) (op : String) (a : List Nat) : Out :=
+  match op, a with
+  | "cms.add", [x] => match Cms.addN bh.hash c x 1 with
+    | some (c', r) => .upd (.cms c' bh) (toString r)
+    | none => .panic
+  | "cms.addn", [x, n] => match Cms.addN bh.hash c x n with
+    | some (c', r) => .upd (.cms c' bh) (toString r)
+    | none => .panic
+  | "cms.query", [x] => match Cms.query bh.hash c x with
+    | some r => .ans (toString r)
+    | none => .panic
+  | "cms.merge", [j] => match s.insts[j]? with
+    | some (.cms o obh) =>
+      if c.d = o.d ∧ c.w = o.w ∧ !(obh == bh) then .panic else
+      match Cms.merge c o with
+      | some c' => .upd (.cms c' bh)
+      | none => .panic
+    | _ => .bad
+  | "cms.clear", [] => .upd (.cms (Cms.clear c) bh)
+  | "cms.empty", [] => .ans (b2s (Cms.isEmpty c))
+  | "cms.getters", [] => .ans s!"{c.w} {c.d}"
+  | "cms.clone", [j] => .mk j (.cms c bh)
+  | _, _ => .bad
+
+def res2s : Cuckoo.Res → String
+  | .ok b => b2s b
+  | .full => "full"
+
+def opCuckoo (s : DState) (f : Cuckoo.St Rng) (bh : HashCfg) (op : String) (a : List Nat) : Out :=
+  let kicks := Pds.Generated.maxNumKicks
+  match op, a with
+  | "cuckoo.insert", [x] => match Cuckoo.insert cuckooRng bh.hash kicks f x with
+    | some (f', r) => .upd (.cuckoo f' bh) (res2s r)
+    | none => .panic
+  | "cuckoo.delete", [x] => match Cuckoo.delete bh.hash f x with
+    | some (f', r) => .upd (.cuckoo f' bh) (b2s r)
+    | none => .panic
+  | "cuckoo.query", [x] => match Cuckoo.query bh.hash f x with
+    | some r => .ans (b2s r)
+    | none => .panic
+  | "cuckoo.union", [j] => match s.insts[j]? with
+    | some (.cuckoo o obh) =>
+      if f.bs = o.bs ∧ f.nb = o.nb ∧ f.lf = o.lf ∧ !(obh == bh) then .panic else
+      match Cuckoo.union cuckooRng bh.hash kicks f o with
+      | some (f', .ok _) => .upd (.cuckoo f' bh) "ok"
+      | some (f', .full) => .upd (.cuckoo f' bh) "full"
+      | none => .panic
+    | _ => .bad
+  | "cuckoo.len", [] => .ans (toString f.n)
+  | "cuckoo.empty", [] => .ans (b2s (f.n == 0))
+  | "cuckoo.clear", [] => .upd (.cuckoo (Cuckoo.clear f) bh)
+  | "cuckoo.getters", [] => .ans s!"{f.bs} {f.nb} {f.lf}"
+  | "cuckoo.clone", [j] => .mk j (.cuckoo f bh)
+  | _, _ => .bad
+
+def qres2s : Quotient.Res → String
+  | .ok b => b2s b
+  | .full => "full"
+
+def opQf (s : DState) (f : QfInst) (bh : HashCfg) (op : String) (a : List Nat) : Out :=
+  match op, a with
+  | "qf.insert", [x] => match Quotient.insert f.q f.r f.st (bh.hash [x]) with
+    | some (st', r) => .upd (.qf { f with st := st' } bh) (qres2s r)
+    | none => .panic
+  | "qf.query", [x] => match Quotient.query f.q f.r f.st (bh.hash [x]) with
+    | some r => .ans (b2s r)
+    | none => .panic
+  | "qf.union", [j] => match s.insts[j]? with
+    | some (.qf o obh) =>
+      if h : o.N = f.N then
+        if f.q = o.q ∧ f.r = o.r then
+          if !(obh == bh) then .panic else
+          match Quotient.union f.st (h ▸ o.st) with
+          | some (st', .ok _) => .upd (.qf { f with st := st' } bh) "ok"
+          | some (st', .full) => .upd (.qf { f with st := st' } bh) "full"
+          | none => .panic
+        else .panic
+      else .panic
+    | _ => .bad
+  | "qf.len", [] => .ans (toString f.st.n)
+  | "qf.empty", [] => .ans (b2s (f.st.n == 0))
+  | "qf.clear", [] => .upd (.qf { f with st := Quotient.clear f.st } bh)
+  | "qf.getters", [] => .ans s!"{f.q} {f.r}"
+  | "qf.clone", [j] => .mk j (.qf f bh)
+  | _, _ => .bad
+
+def opRes (r : Reservoir.St Rng) (op : String) (a : List Nat) : Out :=
+  match op, a with
+  | "res.add", [x] => match Reservoir.add resRng r x with
+    | some r' => .upd (.res r')
+    | none => .panic
+  | "res.get", [] => .ans (s!"{r.k} {r.i} : " ++ " ".intercalate (r.res.toList.map toString))
+  | "res.empty", [] => .ans (b2s (Reservoir.isEmpty r))
+  | "res.clear", [] => .upd (.res (Reservoir.clear r))
+  | "res.clone", [j] => .mk j (.res r)
+  | _, _ => .bad
+
+def sortNats (l : List Nat) : List Nat := l.mergeSort (fun a b => decide (a ≤ b))
+
+def opLossy (l : Lossy.St) (eps : Float) (op : String) (a : List Nat) (raw : List String) : Out :=
+  match op, a with
+  | "lossy.add", [x] => let (l', r) := Lossy.add l x; .upd (.lossy l' eps) (b2s r)
+  | "lossy.query", [_] => match floats raw with
+    | some [thr] =>
+      let ks := sortNats (Lossy.queryBound l (Sizing.lossyBound thr eps l.n))
+      .ans ("[" ++ " ".intercalate (ks.map toString) ++ "]")
+    | _ => .bad
+  | "lossy.n", [] => .ans (toString l.n)
+  | "lossy.getters", [] => .ans s!"{fb eps} {l.width}"
+  | "lossy.clear", [] => .upd (.lossy (Lossy.clear l) eps)
+  | "lossy.clone", [j] => .mk j (.lossy l eps)
+  | _, _ => .bad
+
+def opHeap (h : CmsHeap.St) (op : String) (a : List Nat) : Out :=
+  match op, a with
+  | "heap.add", x :: _class :: cols => match CmsHeap.add h x cols with
+    | some h' => .upd (.heap h')
+    | none => .panic
+  | "heap.iter", [] => .ans ("[" ++ " ".intercalate ((CmsHeap.iter h).map toString) ++ "]")
+  | "heap.empty", [] => .ans (b2s (CmsHeap.isEmpty h))
+  | "heap.clear", [] => .upd (.heap (CmsHeap.clear h))
+  | "heap.clone", [j] => .mk j (.heap h)
+  | _, _ => .bad
+
+def opTd (d : TdInst) (op : String) (a : List Nat) (raw : List String) : Out :=
+  let up (st : TDigest.St Float) (ans : String) : Out := .upd (.td { d with st := st }) ans
+  match op with
+  | "td.insert" | "td.insertw" => match floats raw with
+    | some [x] =>
+      if !x.isFinite then .panic else
+      match TDigest.insertWeighted d.sf d.st x 1 with
+      | some st => up st "ok"
+      | none => .panic
+    | some [x, w] =>
+      if !x.isFinite || !w.isFinite || !(w ≥ 0) then .panic else
+      match TDigest.insertWeighted d.sf d.st x w with
+      | some st => up st "ok"
+      | none => .panic
+    | _ => .bad
+  | "td.quantile" => match floats raw with
+    | some [q] =>
+      match TDigest.quantile d.sf d.st q with
+      | (st, .val v) => up st (fb v)
+      | (st, .nan) => up st (fb (0.0 / 0.0))
+      | (_, .panic) => .panic
+    | _ => .bad
+  | "td.cdf" => match floats raw with
+    | some [x] =>
+      if x.isNaN then .panic else
+      match TDigest.cdf d.sf d.st x with
+      | (st, some v) => up st (fb v)
+      | (_, none) => .panic
+    | _ => .bad
+  | "td.count" => let (st, v) := TDigest.count d.sf d.st; up st (fb v)
+  | "td.sum" => let (st, v) := TDigest.sum d.sf d.st; up st (fb v)
+  | "td.mean" => let (st, v) := TDigest.mean d.sf d.st; up st (fb v)
+  | "td.min" => .ans (fb (d.st.min.getD posInf))
+  | "td.max" => .ans (fb (d.st.max.getD negInf))
+  | "td.ncent" => let (st, v) := TDigest.nCentroids d.sf d.st; up st (toString v)
+  | "td.empty" => .ans (b2s (TDigest.isEmpty d.st))
+  | "td.clear" => up (TDigest.clear d.st) "ok"
+  | "td.getters" => .ans s!"{fb d.delta} {d.st.maxBacklog}"
+  | "td.clone" => match a with
+    | [j] => .mk j (.td d)
+    | _ => .bad
+  | _ => .bad
 
 def step (s : DState) (toks : List String) : DState × String :=
   match toks with
@@ -124,6 +507,15 @@ def step (s : DState) (toks : List String) : DState × String :=
         let s0 := { s with insts := s.insts.erase id }
         let out := match inst with
           | .hll h bh => opHll s h bh op args
+          | .bloom f bh => opBloom s f bh op args
+          | .cms c bh => opCms s c bh op args
+          | .cuckoo f bh => opCuckoo s f bh op args
+          | .qf f bh => opQf s f bh op args
+          | .set l => opSet s l op args
+          | .res r => opRes r op args
+          | .lossy l eps => opLossy l eps op args raw
+          | .heap h => opHeap h op args
+          | .td d => opTd d op args raw
           | .poisoned => .bad
         match out with
         | .ans a => ({ s0 with insts := s0.insts.insert id inst }, a)
